@@ -212,14 +212,15 @@ def run(P, R):
             'Stopper.stop_process does not build its commands from `process.running_identifiers if not identifiers or '
             'identifier in identifiers`')
     ac = P.unit('ApplicationJobs.add_commands')
-    adefs = {a.targets[0].id: a.value for a in own_nodes(ac.node) if isinstance(a, ast.Assign)
-             and isinstance(a.targets[0], ast.Name)}
+    # closed facts of the append (no local names): neither a current nor a planned command for (name, identifier)
+    app = [c for c in own_nodes(ac.node) if isinstance(c, ast.Call) and isinstance(c.func, ast.Attribute)
+           and c.func.attr == 'append']
+    CMD = 'each(each(jobs.items())[1])'        # the command of the loops over the (sequence, commands) given
+    got = factmap(ac).closed(app[0]) if len(app) == 1 else set()
     for nm, fn in (('current_job', 'self.get_current_command'), ('planned_job', 'self.get_planned_command')):
-        v = adefs.get(nm)
-        ok = isinstance(v, ast.Call) and call_text(v) == fn and [ast.unparse(a) for a in v.args] == \
-            ['command.process.process_name', 'command.identifier']
+        ok = ('%s(%s.process.process_name, %s.identifier)' % (fn, CMD, CMD), False) in got
         R.check(r5, ok, '%s matched by process name and identifier' % nm, 'dedup|%s' % nm, ac.loc(),
-                'add_commands looks up %s with %s: the stop of a second copy of the same process is dropped' %
-                (nm, ast.unparse(v) if v is not None else '?'))
+                'add_commands does not append under `not %s(process name, identifier)` (facts: %s): the stop of a '
+                'second copy of the same process is dropped' % (fn, sorted(got)))
     R.assume('That every real duplicate is seen, and that the conciliation loop closes (needs the stop events), is NOT '
              'decided.')
